@@ -16,7 +16,10 @@ def run(ctx):
     ctx.run_mvh(["c17", "-out", tr, "-seed", ctx.seed, "-tier", ctx.tier])
     trx = ctx.path("xenum.ndjson")
     ctx.run_mvh(["enums", "-aux", "c17", "-out", trx, "-seed", ctx.seed, "-tier", ctx.tier])
-    recs = vf.read_ndjson(tr) + vf.read_ndjson(trx)
+    # a fresh process in which an in-house dialect with namesake types is initialized BEFORE the shipped dialects
+    tru = ctx.path("c17u.ndjson")
+    ctx.run_mvh(["c17", "-aux", "userfirst", "-out", tru, "-seed", ctx.seed, "-tier", ctx.tier])
+    recs = vf.read_ndjson(tr) + vf.read_ndjson(trx) + vf.read_ndjson(tru)
     n = max(1, min(vf.NCPU, len(recs)))
     size = (len(recs) + n - 1) // n
     chunks = [recs[i:i + size] for i in range(0, len(recs), size)]
